@@ -58,6 +58,15 @@ def make_kinds(g="G", garg="T", lt="'a"):
         Kind("OptG", "::core::option::Option<%s>" % g, gcaps, 3, _opt(gl), needs={"G"}),
         Kind("ArrG", "[%s; 2]" % g, gcaps - {"Default"} if False else gcaps, 3,
              _pair(gl, RT + "arr2(%s, %s)"), needs={"G"}),
+        Kind("VecG", "::std::vec::Vec<%s>" % g, gcaps - {"Copy"}, 3,
+             lambda s, sl, a: "::std::vec::Vec::new()" if a == 0 else "%svec1(%s)" % (RT, gl(s, sl, a - 1)), needs={"G"}),
+        Kind("NestG", "::core::option::Option<::core::option::Option<%s>>" % g, gcaps, 3,
+             lambda s, sl, a: ("::core::option::Option::None" if a == 0 else
+                               "::core::option::Option::Some(::core::option::Option::None)" if a == 1 else
+                               "::core::option::Option::Some(::core::option::Option::Some(%s))" % gl(s, sl, 0)), needs={"G"}),
+        Kind("WrapG", "%sWrap<%s>" % (RT, g), gcaps, 3, lambda s, sl, a: "%sWrap(%s)" % (RT, gl(s, sl, a)), needs={"G"}),
+        Kind("RefG", "&%s %s" % (lt, g), (gcaps | {"Clone", "Copy"}) - {"Default"}, 3,
+             lambda s, sl, a: "%sleak(%s)" % (RT, gl(s, sl, a)), needs={"G", "a"}),
         Kind("PhG", "::core::marker::PhantomData<%s>" % g, ALLCAPS, 1,
              lambda s, sl, a: "::core::marker::PhantomData", needs={"G"}),
         Kind("U8", "u8", ALLCAPS, 3, lambda s, sl, a: "%du8" % a),
@@ -67,6 +76,12 @@ def make_kinds(g="G", garg="T", lt="'a"):
     d["G"].dexpr = gen_leaf
     d["OptG"].dexpr = _opt(gen_leaf)
     d["ArrG"].dexpr = _pair(gen_leaf, RT + "arr2(%s, %s)")
+    d["VecG"].dexpr = lambda s, sl, a: "::std::vec::Vec::new()" if a == 0 else "%svec1(%s)" % (RT, gen_leaf(s, sl, a - 1))
+    d["NestG"].dexpr = lambda s, sl, a: ("::core::option::Option::None" if a == 0 else
+                                         "::core::option::Option::Some(::core::option::Option::None)" if a == 1 else
+                                         "::core::option::Option::Some(::core::option::Option::Some(%s))" % gen_leaf(s, sl, 0))
+    d["WrapG"].dexpr = lambda s, sl, a: "%sWrap(%s)" % (RT, gen_leaf(s, sl, a))
+    d["RefG"].dexpr = lambda s, sl, a: "%sleak(%s)" % (RT, gen_leaf(s, sl, a))
     return d
 
 
